@@ -10,6 +10,7 @@ CFG = {
     "C12": {"quick": ("MC_TxStore_c12_quick.cfg", 1, 300), "thorough": ("MC_TxStore_c12_thorough.cfg", 1, 5000)},
 }
 LEVEL = "model_checking"
+PROPS = ["C01", "C02", "C12", "C13"]
 
 
 def run(prop, tier, seed, scratch, replay=None):
